@@ -60,6 +60,11 @@ CLAIMED = {
         "level": "Decides two necessary conditions (K1 trapping instructions guarded, K2 no unreviewed panic across the FFI boundary in built-ins); absence of traps for all operand values in generated code in general is not decided. Five genuine defects are listed as known findings.",
         "note": "Partial: clauses K1, K2.",
     },
+    "C07": {
+        "technique": "per-arm HIR checks of the type checker's expression and operator tables (expected-type use, documented fixed types, operand contexts), MIR def-use error discipline over every TypeResult-returning call in typechecker::*, call-graph liveness of every diagnostic constructor, guard-before-use checks for the rule-specific tests",
+        "level": "Decides necessary conditions E1-E5 over all 20 expression arms, 7 operator groups, ~320 result-returning call sites and 27 diagnostics; soundness of inference for all programs is not decided.",
+        "note": "Partial: clauses E1-E5.",
+    },
 }
 _PENDING = "check under construction in this session; not yet claimed"
 NOT_APPLICABLE = {p: _PENDING for p in
